@@ -1,2 +1,116 @@
-(* C06 - trivial placeholder while the correspondence is being validated. *)
-From TT Require Import Lib.Base Model.Matchers Spec.C06 Corr.C06.
+(* C06 - matcher verdicts obey their declared semantics compositionally.
+   Only statements; every proof is `exact <lemma of Proof/C06*.v>`. *)
+From Coq Require Import Permutation.
+From TT Require Import Lib.Base Model.Matchers Spec.C06 Corr.C06 Proof.C06Setwise Proof.C06Leaves Proof.C06.
+
+(* The model meets the whole statement on every input outside the class that delimits finding F13:
+   inside the domain, every construction of the expression (every set-iteration order) yields the
+   documented verdict; Raises lets through exactly the non-Exception errors it did not match. *)
+Theorem C06_holds : forall i : input, wf i -> finding_F13 i = false -> spec_okb i (model i) = true.
+Proof. exact (fun i _ => model_meets_spec i). Qed.
+Print Assumptions C06_holds.
+
+(* ... and without that guard the statement is false of the faithful model (known finding F13):
+   MatchesSetwise(MatchesAny(Equals(1), Equals(2)), Equals(1)) on [1, 2] mismatches when the set
+   yields the first matcher first, matches in the other order, although an assignment exists. *)
+Theorem C06_refuted_F13 : exists i, wf i /\ idom i = true /\ spec_okb i (model i) = false.
+Proof. exact (ex_intro _ f13_input (conj I (conj (proj1 refuted_F13) (proj2 (proj2 (proj2 (proj2 refuted_F13))))))). Qed.
+Print Assumptions C06_refuted_F13.
+
+Theorem C06_statement : forall i o, spec_okb i o = true -> Spec i o.
+Proof. exact spec_okb_sound. Qed.
+Print Assumptions C06_statement.
+
+Theorem C06_obs_eqb : forall a b, obs_eqb a b = true <-> a = b.
+Proof. exact obs_eqb_spec. Qed.
+Print Assumptions C06_obs_eqb.
+
+(* For every matcher expression, every value in its domain, every semantics of the abstract leaves
+   and every set-iteration order: match() returns None iff the documented predicate holds. *)
+Theorem C06_truth_functional : forall leafsem rank m v,
+  dom leafsem m v = true -> amb leafsem m v = false ->
+  (match_ leafsem rank m v = None <-> sem leafsem m v = true).
+Proof. exact tf_dom. Qed.
+Print Assumptions C06_truth_functional.
+
+(* a greedy success is a one-to-one assignment - no guard needed *)
+Theorem C06_setwise_sound : forall leafsem rank s ms l,
+  (forall m' x, In m' ms -> In x l -> (match_ leafsem rank m' x = None <-> sem leafsem m' x = true)) ->
+  match_ leafsem rank (MatchesSetwise s ms) (VList l) = None ->
+  exists ms', Permutation ms ms' /\ Forall2 (fun m x => sem leafsem m x = true) ms' l.
+Proof. exact setwise_sound. Qed.
+Print Assumptions C06_setwise_sound.
+
+(* an assignment is found, whatever the iteration order, where no value is matched by two matchers *)
+Theorem C06_setwise_complete : forall leafsem rank s ms l,
+  dom leafsem (MatchesSetwise s ms) (VList l) = true -> amb leafsem (MatchesSetwise s ms) (VList l) = false ->
+  (exists ms', Permutation ms ms' /\ Forall2 (fun m x => sem leafsem m x = true) ms' l) ->
+  match_ leafsem rank (MatchesSetwise s ms) (VList l) = None.
+Proof. exact setwise_complete. Qed.
+Print Assumptions C06_setwise_complete.
+
+(* the verdict does not depend on the set-iteration order *)
+Theorem C06_pure : forall leafsem rank1 rank2 m v,
+  dom leafsem m v = true -> amb leafsem m v = false ->
+  (match_ leafsem rank1 m v = None <-> match_ leafsem rank2 m v = None).
+Proof. exact pure. Qed.
+Print Assumptions C06_pure.
+
+(* Raises.match lets an exception out iff it is not an Exception and was not explicitly matched *)
+Theorem C06_raises_rule : forall leafsem rank em c a c',
+  run leafsem rank (Raises em) (VRaise c a) = OProp c' <->
+  c' = c /\ is_user c = false /\
+  match em with Some m' => match_ leafsem rank m' (VExc c a) <> None | None => True end.
+Proof. exact raises_rule_spec. Qed.
+Print Assumptions C06_raises_rule.
+
+(* the documented predicate in readable form, combinator by combinator *)
+Theorem C06_sem_clauses : forall ls,
+  (forall m v, sem ls (Not m) v = negb (sem ls m v))
+  /\ (forall fo ms v, sem ls (MatchesAll fo ms) v = true <-> Forall (fun m => sem ls m v = true) ms)
+  /\ (forall ms v, sem ls (MatchesAny ms) v = true <-> Exists (fun m => sem ls m v = true) ms)
+  /\ (forall m l, sem ls (AllMatch m) (VList l) = true <-> Forall (fun x => sem ls m x = true) l)
+  /\ (forall m l, sem ls (AnyMatch m) (VList l) = true <-> Exists (fun x => sem ls m x = true) l)
+  /\ (forall fo ms l, sem ls (MatchesListwise fo ms) (VList l) = true <-> Forall2 (fun m x => sem ls m x = true) ms l)
+  /\ (forall s ms l, sem ls (MatchesSetwise s ms) (VList l) = true <->
+                     exists ms', Permutation ms ms' /\ Forall2 (fun m x => sem ls m x = true) ms' l)
+  /\ (forall kms obs, sem ls (MatchesDict kms) (VDict obs) = true <->
+        (forall kv, In kv obs -> has_key (fst kv) kms = true) /\
+        (forall km, In km kms -> exists x, lookup (fst km) obs = Some x /\ sem ls (snd km) x = true))
+  /\ (forall kms obs, sem ls (ContainsDict kms) (VDict obs) = true <->
+        (forall km, In km kms -> exists x, lookup (fst km) obs = Some x /\ sem ls (snd km) x = true))
+  /\ (forall kms obs, sem ls (ContainedByDict kms) (VDict obs) = true <->
+        (forall kv, In kv obs -> has_key (fst kv) kms = true) /\
+        (forall km x, In km kms -> lookup (fst km) obs = Some x -> sem ls (snd km) x = true))
+  /\ (forall ams i attrs, sem ls (MatchesStructure ams) (VRec i attrs) = true <->
+        (forall am, In am ams -> exists x, getattr (fst am) attrs = Some x /\ sem ls (snd am) x = true))
+  /\ (forall p a m v w, apply_pp p v = Some w -> sem ls (AfterPreprocessing p a m) v = sem ls m w)
+  /\ (forall n m v, sem ls (Annotate n m) v = sem ls m v).
+Proof.
+  exact (fun ls => conj (sem_not ls) (conj (sem_all ls) (conj (sem_any ls) (conj (sem_allmatch ls)
+        (conj (sem_anymatch ls) (conj (sem_listwise ls) (conj (sem_setwise ls) (conj (sem_dict ls)
+        (conj (sem_containsdict ls) (conj (sem_containedbydict ls) (conj (sem_structure ls)
+        (conj (sem_after ls) (sem_annotate ls))))))))))))).
+Qed.
+Print Assumptions C06_sem_clauses.
+
+(* the two leaves whose code differs from their documented predicate *)
+Theorem C06_leaf_code :
+  (forall l e, forallb scalar (e ++ l) = true ->
+     (is_nil (list_subtract e l) && is_nil (list_subtract l e) = true <-> same_members l e = true))
+  /\ (forall a b, list_eqb key_eqb (Sort.isort key_leb a) (Sort.isort key_leb b) = true <-> same_keys a b = true).
+Proof. exact (conj same_members_code same_keys_code). Qed.
+Print Assumptions C06_leaf_code.
+
+(* non-vacuity: a depth-3 expression with an abstract leaf, a set, a dict and a first_only list *)
+Example C06_example :
+  let ls := leafsem_of [[sn [97; 98]]] in
+  let m := MatchesAll false
+             [ContainsDict [(KStr (sn [97]), MatchesSetwise 0 [Leaf 0; Not (Leaf 0)])];
+              Not (MatchesDict [(KStr (sn [97]), Always)]);
+              AfterPreprocessing 6 true (MatchesListwise true [AllMatch (IsInstance [TStr]); Equals (VInt 1)])] in
+  let v := VDict [(KStr (sn [97]), VList [VStr (sn [99]); VStr (sn [97; 98])]); (KStr (sn [98]), VInt 1)] in
+  dom ls m v = true /\ amb ls m v = false /\ sem ls m v = true
+  /\ match_ ls (fun _ i => i) m v = None /\ match_ ls (fun _ i => 1 - i) m v = None
+  /\ match_ ls (fun _ i => i) (Not m) v = Some MUnexp.
+Proof. vm_compute. repeat split. Qed.
